@@ -106,7 +106,8 @@ Proof.
 Qed.
 Lemma range_p_wf s bs r : range_p s = Some (bs, r) -> wf bs.
 Proof.
-  unfold range_p. pose proof (hyphen_p_wf (space0 s)) as W. destruct (hyphen_p (space0 s)) as [[b r0]|]; [|apply simples_p_wf].
+  unfold range_p. destruct (at_empty_alt (space0 s)); [intros [= <- _]; vm_compute; repeat constructor|].
+  pose proof (hyphen_p_wf (space0 s)) as W. destruct (hyphen_p (space0 s)) as [[b r0]|]; [|apply simples_p_wf].
   destruct (at_alt_end r0); [|apply simples_p_wf]. intros [= <- _]. cbn in W.
   destruct b; cbn; [constructor; [exact W|constructor]|constructor].
 Qed.
